@@ -40,6 +40,7 @@ type Unit struct {
 	TypeNames   map[string]LT     // per-unit Go type -> Lean type (for map literals), overriding goTypeNames
 	Inline      string            // helpers translated on demand: the function as a lambda term, used at the call sites
 	Mutates     []bool            // … and, per value parameter, whether the helper writes through it
+	DropText    bool              // locals that only ever hold human-readable text (string literals, fmt.Sprintf, their concatenation) are dropped
 	Closure     bool              // the function is `return func(…) (…) { … }`: the unit is that closure (parameters: outer, then inner)
 	failed      string            // set when the unit turned out not to be translatable
 }
@@ -568,7 +569,7 @@ func init() {
 	// balance is an oracle function of the address the code passes.  The message string is dropped
 	// (a poisoned local), the result is the `broken` flag.
 	inv := func(name string) Unit {
-		return Unit{Group: "Invariants", Name: name, Pkg: keeperP, Func: name, StoreOn: true, JoinIfs: true, Closure: true,
+		return Unit{Group: "Invariants", Name: name, Pkg: keeperP, Func: name, StoreOn: true, JoinIfs: true, Closure: true, DropText: true,
 			Params: []gparam{{Go: "k", T: "Keeper"}, {Go: "ctx"}, {Go: "bal__", T: "BankFn", Oracle: true}}, Ret: []LT{"String", "Bool"},
 			Calls: map[string]callSpec{
 				"k.bankKeeper.SpendableCoins": {Value: V{"(bal__ %2)", "Bal"}},
